@@ -176,7 +176,9 @@ def run(ctx):
     for scen, rs in sorted(by.items()):
         ctx.evaluations += len(rs)
         bad = [r for r in rs if not r["ok"]]
-        if bad and scen == "blocked-streams-keep-flowing":
+        if bad and scen == "stale-blocked-copy":
+            srecs.append({"kind": "heartbeat_judges_stream_served_since_its_copy", "scenario": scen, "what": bad[0]["what"], "trials": len(rs), "failed": len(bad)})
+        elif bad and scen == "blocked-streams-keep-flowing":
             srecs.append({"kind": "blocked_streams_wedged", "scenario": scen, "what": bad[0]["what"], "delivered": bad[0].get("rounds", 0)})
         elif bad and (len(bad) == len(rs) or scen == "commit-race"):       # constructed windows must reproduce in every trial
             srecs.append({"kind": "stream_commit_went_back", "scenario": scen, "what": bad[0]["what"], "trials": len(rs), "failed": len(bad)})
